@@ -870,7 +870,22 @@ class ODLEncoder(PVLEncoder):
         elif self.is_symbol(value):
             return "'" + value + "'"
         else:
+            self._check_text_string(value)
             return super().encode_string(value)
+
+    def _check_text_string(self, value: str):
+        """Raises ValueError if *value* can neither be written as an ODL
+        Text String (which cannot contain a double quote) nor as a
+        single-quoted Symbol String (which must stay on one line).
+        """
+        if '"' in value and any(
+            fe in value for fe in self.grammar.format_effectors
+        ):
+            raise ValueError(
+                "ODL Text Strings cannot contain double quotes, and ODL "
+                "Symbol Strings cannot contain line breaks, but this string "
+                f"has both: {value!r}"
+            )
 
     def encode_time(self, value: datetime.time) -> str:
         """Extends parent function since ODL allows a time zone offset
@@ -1205,6 +1220,7 @@ class PDSLabelEncoder(ODLEncoder):
         elif self.is_symbol(value) and self.symbol_single_quote:
             return "'" + value + "'"
         else:
+            self._check_text_string(value)
             return super(ODLEncoder, self).encode_string(value)
 
     def encode_time(self, value: datetime.time) -> str:
